@@ -25,6 +25,26 @@ pub struct Parser<'a> {
     /// Set once the nesting limit has been hit, so that the failure is reported as such even
     /// when a speculative parse swallowed the original error.
     too_deep: bool,
+    /// Speculative parses that already failed, by kind, start offset and `no_in`: the outcome
+    /// of a speculation depends on nothing else, so when an enclosing speculation fails too
+    /// and the text is parsed again, the inner ones are not tried a second time (nested
+    /// `(a = (a = ...))` would otherwise double the work per level).
+    failed_speculations: FxHashSet<(Speculation, usize, bool)>,
+}
+
+/// The places where the parser tries one reading of the text and rewinds when it fails.
+#[derive(Clone, Copy, PartialEq, Eq, Hash)]
+enum Speculation {
+    /// `(` ... `)` as arrow function parameters rather than a parenthesized expression
+    ArrowParams,
+    /// `:` type after `(` ... `)` as an arrow function's return type
+    ArrowReturnType,
+    /// `<` ... `>` `(` as the type arguments of a call rather than a comparison
+    CallTypeArgs,
+    /// `<` type `>` expression as a type assertion
+    AngleAssertion,
+    /// `(` ... `)` `=>` as a function type rather than a parenthesized type
+    FunctionType,
 }
 
 /// Limit on how deeply statements, expressions, patterns and types may nest.
@@ -51,6 +71,7 @@ impl<'a> Parser<'a> {
             depth: 0,
             deepest: 0,
             too_deep: false,
+            failed_speculations: FxHashSet::default(),
         }
     }
 
@@ -88,6 +109,17 @@ impl<'a> Parser<'a> {
             return Err(self.nesting_error());
         }
         Ok(())
+    }
+
+    /// Has this speculation already been tried, and failed, at the current token?
+    fn speculation_known_to_fail(&self, kind: Speculation) -> bool {
+        self.failed_speculations
+            .contains(&(kind, self.current.span.start, self.no_in))
+    }
+
+    /// Remember that the speculation starting at offset `at` failed.
+    fn remember_failed_speculation(&mut self, kind: Speculation, at: usize) {
+        self.failed_speculations.insert((kind, at, self.no_in));
     }
 
     /// Account for a loop wrapping the tree built so far in one more node
@@ -2391,6 +2423,9 @@ impl<'a> Parser<'a> {
     /// Returns None if this is not a type assertion (e.g., comparison or JSX)
     fn try_parse_angle_bracket_assertion(&mut self) -> Result<Option<Expression>, JsError> {
         let start = self.current.span;
+        if self.speculation_known_to_fail(Speculation::AngleAssertion) {
+            return Ok(None);
+        }
 
         // Save position for backtracking
         let saved_current = self.current.clone();
@@ -2416,6 +2451,7 @@ impl<'a> Parser<'a> {
                 // Not a valid type assertion, restore position
                 self.current = saved_current;
                 self.lexer.restore(checkpoint);
+                self.remember_failed_speculation(Speculation::AngleAssertion, start.start);
                 Ok(None)
             }
             Err(_) => {
@@ -2423,6 +2459,7 @@ impl<'a> Parser<'a> {
                 // Not a type, restore position
                 self.current = saved_current;
                 self.lexer.restore(checkpoint);
+                self.remember_failed_speculation(Speculation::AngleAssertion, start.start);
                 Ok(None)
             }
         }
@@ -3106,17 +3143,28 @@ impl<'a> Parser<'a> {
             return self.parse_arrow_function_from_params(vec![], start);
         }
 
-        // Try to parse as arrow function params (with type annotations)
-        let arrow_params = self.try_parse_arrow_params();
-        if let Err(e) = &arrow_params
-            && let JsError::SyntaxError { message, location } = e
-        {
+        // Try to parse as arrow function params (with type annotations), unless an earlier
+        // attempt at this position already failed
+        let known_to_fail = self
+            .failed_speculations
+            .contains(&(Speculation::ArrowParams, start.start, self.no_in));
+        let arrow_params = if known_to_fail {
+            None
+        } else {
+            Some(self.try_parse_arrow_params())
+        };
+        if let Some(Err(JsError::SyntaxError { message, location })) = &arrow_params {
             *params_error = Some(JsError::SyntaxError {
                 message: message.clone(),
                 location: location.clone(),
             });
         }
-        if let Ok(params) = arrow_params {
+        if known_to_fail {
+            // Known not to be arrow params: fall through to the parenthesized expression
+            self.lexer.restore(lexer_checkpoint);
+            self.current = saved_current;
+            self.previous = saved_previous;
+        } else if let Some(Ok(params)) = arrow_params {
             // Arrow immediately after ) -> definitely arrow function
             if self.check(&TokenKind::Arrow) {
                 return self.parse_arrow_function_from_params(params, start);
@@ -3126,7 +3174,9 @@ impl<'a> Parser<'a> {
             let has_type_annotations = params.iter().any(|p| p.type_annotation.is_some());
             if has_type_annotations {
                 // Try to parse return type annotation
-                if self.check(&TokenKind::Colon) {
+                if self.check(&TokenKind::Colon)
+                    && !self.speculation_known_to_fail(Speculation::ArrowReturnType)
+                {
                     // Save position to rollback if this isn't an arrow function
                     let type_checkpoint = self.lexer.checkpoint();
                     let type_saved_current = self.current.clone();
@@ -3144,13 +3194,19 @@ impl<'a> Parser<'a> {
                     // Not an arrow function, rollback
                     self.lexer.restore(type_checkpoint);
                     self.current = type_saved_current;
+                    self.remember_failed_speculation(
+                        Speculation::ArrowReturnType,
+                        self.current.span.start,
+                    );
                 }
                 return Err(self.unexpected_token("'=>'"));
             }
 
             // Colon after ) could be return type or ternary operator
             // Only treat as arrow function if we see => after the type
-            if self.check(&TokenKind::Colon) {
+            if self.check(&TokenKind::Colon)
+                && !self.speculation_known_to_fail(Speculation::ArrowReturnType)
+            {
                 let type_checkpoint = self.lexer.checkpoint();
                 let type_saved_current = self.current.clone();
 
@@ -3167,18 +3223,24 @@ impl<'a> Parser<'a> {
                 // Not an arrow function (could be ternary), rollback
                 self.lexer.restore(type_checkpoint);
                 self.current = type_saved_current;
+                self.remember_failed_speculation(
+                    Speculation::ArrowReturnType,
+                    self.current.span.start,
+                );
             }
 
             // No arrow - might be parenthesized expression, rollback and re-parse
             self.lexer.restore(lexer_checkpoint);
             self.current = saved_current;
             self.previous = saved_previous;
+            self.remember_failed_speculation(Speculation::ArrowParams, start.start);
         } else {
             self.speculation_failed()?;
             // Failed to parse as params, rollback
             self.lexer.restore(lexer_checkpoint);
             self.current = saved_current;
             self.previous = saved_previous;
+            self.remember_failed_speculation(Speculation::ArrowParams, start.start);
         }
 
         // Parse as parenthesized expression
@@ -3593,6 +3655,11 @@ impl<'a> Parser<'a> {
         callee: Expression,
         start: Span,
     ) -> Result<Option<Expression>, JsError> {
+        if self.speculation_known_to_fail(Speculation::CallTypeArgs) {
+            return Ok(None);
+        }
+        let lt_offset = self.current.span.start;
+
         // Save state for backtracking
         let checkpoint = self.lexer.checkpoint();
         let saved_current = self.current.clone();
@@ -3607,6 +3674,7 @@ impl<'a> Parser<'a> {
                 self.lexer.restore(checkpoint);
                 self.current = saved_current;
                 self.previous = saved_previous;
+                self.remember_failed_speculation(Speculation::CallTypeArgs, lt_offset);
                 return Ok(None);
             }
         };
@@ -3617,6 +3685,7 @@ impl<'a> Parser<'a> {
             self.lexer.restore(checkpoint);
             self.current = saved_current;
             self.previous = saved_previous;
+            self.remember_failed_speculation(Speculation::CallTypeArgs, lt_offset);
             return Ok(None);
         }
 
@@ -4190,6 +4259,9 @@ impl<'a> Parser<'a> {
     /// input from the middle, once more per nesting level).
     fn try_parse_function_type(&mut self) -> Result<Option<TypeAnnotation>, JsError> {
         let start = self.current.span;
+        if self.speculation_known_to_fail(Speculation::FunctionType) {
+            return Ok(None);
+        }
 
         // Save state for potential rollback
         let lexer_checkpoint = self.lexer.checkpoint();
@@ -4205,6 +4277,7 @@ impl<'a> Parser<'a> {
                 self.lexer.restore(lexer_checkpoint);
                 self.current = saved_current;
                 self.previous = saved_previous;
+                self.remember_failed_speculation(Speculation::FunctionType, start.start);
                 return Ok(None);
             }
         };
@@ -4215,6 +4288,7 @@ impl<'a> Parser<'a> {
             self.lexer.restore(lexer_checkpoint);
             self.current = saved_current;
             self.previous = saved_previous;
+            self.remember_failed_speculation(Speculation::FunctionType, start.start);
             return Ok(None);
         }
 
